@@ -167,6 +167,8 @@ def min_error_primal(ctx, f, sense):
     if not sk.probs:
         ctx.ob("R-SDP", f, "problem constructed", None, "no picos.Problem", required=False)
         return sk
+    from ..sdp import r_hermitian_vars
+    r_hermitian_vars(ctx, f, sk)
     p = sk.probs[0]
     ctx.ob("R-SDP", f, f"objective sense == {sense}", p.sense == sense, p.sense or "?", p.node)
     # family: one Hermitian operator per state
@@ -214,6 +216,8 @@ def min_error_dual(ctx, f, rel, sense):
     if not sk.probs:
         ctx.ob("R-SDP", f, "problem constructed", None, "no picos.Problem", required=False)
         return sk
+    from ..sdp import r_hermitian_vars
+    r_hermitian_vars(ctx, f, sk)
     p = sk.probs[0]
     ctx.ob("R-SDP", f, f"objective sense == {sense}", p.sense == sense, p.sense or "?", p.node)
     ok_obj = p.objective == ("call", "picos.trace", (("n", "y_var"),), ())
